@@ -3,7 +3,7 @@
    than 53 or more than 64 bits, because the _raw_cast guard is proved sound — whenever it
    leaves the operands in int64 / uint64 / float64, every intermediate is exact. *)
 From Coq Require Import ZArith List Bool.
-From FxpVerif Require Import Spec SpecArith NP Store ProofsCore ProofsStore Arith ProofsArith.
+From FxpVerif Require Import Spec SpecArith NP Store ProofsCore ProofsStore Arith ProofsArith ProofsExact.
 Import ListNotations.
 Open Scope Z_scope.
 
@@ -11,7 +11,7 @@ Open Scope Z_scope.
    that can carry it (|z| < 2^63 in int64, reinterpretable in uint64, < 2^53 in float64) *)
 Theorem C19_guard_sound : forall op fx fy cx cy,
   wf_op fx -> wf_op fy -> mul_pc_ok op fx fy -> in_range fx cx -> in_range fy cy ->
-  raw_elem op fx fy (nf (grow op fx fy)) cx cy = Ok (encode (raw_kind op fx fy) (exact_int op fx fy cx cy))
+  forall ex, raw_elem ex op fx fy (nf (grow op fx fy)) cx cy = Ok (encode (raw_kind op fx fy) (exact_int op fx fy cx cy))
   /\ kind_ok (raw_kind op fx fy) (exact_int op fx fy cx cy).
 Proof. exact raw_exact. Qed.
 Print Assumptions C19_guard_sound.
@@ -47,3 +47,16 @@ Example C19_nonvacuous :
   (exists w, arith_raw OpMul {| sg := true; nw := 33; nf := 0 |} [-3298067730] {| sg := false; nw := 27; nf := 6 |} [134217724]
                {| sg := true; nw := 60; nf := 6 |} Trunc Saturate = Ok w /\ w_codes w = [-442659144318446520]).
 Proof. split; eexists; vm_compute; repeat split; reflexivity. Qed.
+
+(* ... and into a format with a NEGATIVE fraction length: integers of more than 53 bits (int64 carriers) are scaled with an
+   exact rational factor, rounded once, whatever the word length; codes and the three flags *)
+Theorem C19_store_wide_ints_negative_nfrac : forall f r o zs, 1 <= nw f -> nf f < 0 ->
+  existsb (fun z => 2^53 <=? Z.abs z) zs = true ->
+  set_val_real f r o false (AI64 zs) VInt = Ok (spec_wres f r o (map dy_of_Z zs)).
+Proof. exact set_val_wide_ints_negative_nfrac. Qed.
+Print Assumptions C19_store_wide_ints_negative_nfrac.
+
+Example C19_negative_nfrac_nonvacuous :
+  set_val_real {| sg := true; nw := 52; nf := -4 |} Trunc Saturate false (AI64 [2^53 + 1; 32]) VInt
+  = Ok {| w_codes := [2^49; 2]; w_ovf := false; w_unf := false; w_inacc := true |}.
+Proof. vm_compute. reflexivity. Qed.
